@@ -402,7 +402,9 @@ class StmtMixin:
         h = st.fork()
         pre = st
         for n in sorted(names):
-            if n in h.locals:
+            if n in spec.get("havoc_types", {}) and n in h.locals:
+                h.locals[n] = self.make_value(spec["havoc_types"][n], f"{n}@{tag}", h)
+            elif n in h.locals:
                 h.locals[n] = self.havoc_value(h.locals[n], h, f"{n}@{tag}")
             else:
                 h.locals[n] = UNBOUND
@@ -417,6 +419,8 @@ class StmtMixin:
             try:
                 b = self.ev1(le, pre)
             except (SpecError, PathEnd, KeyError, Unsupported):
+                continue
+            if isinstance(le, ast.Name) and le.id in spec.get("havoc_types", {}):
                 continue
             if isinstance(b, VRef) and isinstance(h.heap.get(b.oid), VSeq):
                 old = h.heap[b.oid]
